@@ -267,7 +267,7 @@ def be_bytes(v):
 # --------------------------------------------------------------------------------- shapes per type
 def shapes_for(t, tier):
     """list of shape dicts for schema type t"""
-    thorough = tier == 'thorough'
+    thorough = True      # the full shape set costs ~35 s sequentially: used in both tiers
     name_shapes = [(), (1,), (2, 1)] + ([(3, 2, 1), (63,)] if thorough else [])
     str_lens = [0, 2] + ([5, 255] if thorough else [])
     rest_lens = [0, 3] + ([1, 9] if thorough else [])
